@@ -2,7 +2,7 @@
 """Copy evaluated seeded changes from /tmp/seeded_out/<ID>/<x>/ into /verif/seeded/<ID>-<x>/ (patch.diff, demo, meta.json)."""
 import json, os, shutil, sys, glob
 out = []
-for d in sorted(glob.glob('/tmp/seeded_out/C*/[ab]')):
+for d in sorted(glob.glob('/tmp/seeded_out/C*/[a-z]')):
     pid = d.split('/')[-2]; x = d.split('/')[-1]
     ev = os.path.join(d, 'eval.json')
     if not os.path.exists(ev) or not os.path.exists(os.path.join(d, 'patch.diff')):
